@@ -74,6 +74,34 @@ Theorem C05_heap_results_kept : forall es ρ σ σ' rs, wf σ ρ -> run_keep ρ 
   Forall (fun r => forall k, r = Ok (HRef k) -> k < length σ') rs.
 Proof. exact keep_spec. Qed.
 
+(** Any schedule.  A configuration is the store with the multiset of all handles in existence;
+    threads clone a handle they hold, drop one, allocate, or append through one (Arc::make_mut,
+    then write); [pinned] are the handles the context holds throughout.  For EVERY sequence of
+    such steps - every interleaving of any number of threads - owner counts stay exactly the
+    handles in existence (nothing is freed or mutated in place while another handle to it
+    exists) and every buffer the context holds keeps its payload. *)
+Theorem C05_any_interleaving : forall pinned ops c c',
+  inv c -> (forall l, cnt l pinned <= cnt l (hs c)) -> steps pinned c ops = Some c' ->
+  inv c' /\ (forall l, cnt l pinned <= cnt l (hs c')) /\
+  (forall l, 0 < cnt l pinned -> pl_of (st c') l = pl_of (st c) l).
+Proof. exact any_interleaving. Qed.
+
+(** non-vacuity: the context's list [1;2] survives a thread that clones it, appends (a private
+    copy is made), clones the copy, appends in place after dropping that clone, and drops all *)
+Example C05_ex_interleaving :
+  let c0 := {| st := [{| rc := 1; pl := PList [1; 2]%Z |}]; hs := [0] |} in
+  inv c0 /\
+  match steps [0] c0 [OClone 0; OAppend 0 (PList [1; 2; 3]%Z); OClone 1; ODrop 1; OAppend 1 (PList [1; 2; 3; 4]%Z); ODrop 1] with
+  | Some c' => pl_of (st c') 0 = PList [1; 2]%Z /\ rc_of (st c') 0 = 1 /\ pl_of (st c') 1 = PList [1; 2; 3; 4]%Z /\ rc_of (st c') 1 = 0
+  | None => False
+  end.
+Proof.
+  split; [|vm_compute; repeat split].
+  intros l. destruct l as [|l]; [vm_compute; split; [reflexivity|intros _; apply le_n]|].
+  split; [unfold rc_of; cbn; now destruct l|]. cbn. destruct (Nat.eq_dec 0 (S l)); [discriminate|]. cbn. intros H; inversion H.
+Qed.
+
+Print Assumptions C05_any_interleaving.
 Print Assumptions C05_heap_results_kept.
 Print Assumptions C05_heap_execution.
 Print Assumptions C05_heap_history.
